@@ -68,6 +68,13 @@ def gen(rnd, tier):
             'extra': rnd.choice([0, 0, 0, 1, 2]), 'extra_kind': rnd.choice(['H', 'O', 'foreign']),
             'neighbours': [rnd.choice(aa) for _ in range(rnd.randint(1, 3))] if peptide else [],
             'position_in_peptide': rnd.randint(0, 3), 'seed': rnd.randrange(10 ** 9)}
+    if peptide and block in aa and rnd.random() < 0.35:
+        small = [i for i, nb in enumerate(case['neighbours']) if nb in ('ALA', 'GLY', 'SER', 'CYS', 'THR', 'VAL')]
+        if small:
+            i = rnd.choice(small)
+            # index of that neighbour in the final sequence (the residue under test is inserted at position_in_peptide)
+            posn = min(case['position_in_peptide'], len(case['neighbours']))
+            case['mutate_neighbour'] = i if i < posn else i + 1
     if ffname == 'charmm' and rnd.random() < 0.45:
         # hostile names: the residue carries the atom names of an isosteric neighbour (same heavy-atom shape, other
         # elements), both given without hydrogens; the neighbour is repaired first and shares the symmetry cache
@@ -156,6 +163,10 @@ def build(case):
         b = ff.blocks[seq[ri]]
         key[(ri, an)] = k
         mol.add_node(k, atomname=an, element=b.nodes[an]['element'], resname=seq[ri], resid=ri + 1, chain='A', atomid=k + 1)
+        if ri == case.get('mutate_neighbour') and ri != pos:
+            # a requested mutation elsewhere in the molecule, TO the residue type under test (as -mutate does): what is done
+            # for that residue must not change how the residue under test, for which nothing is requested, is repaired
+            mol.nodes[k]['mutation'] = [case['block']]
         k += 1
     for ri, rn in enumerate(seq):
         b = ff.blocks[rn]
@@ -341,7 +352,7 @@ def run_case(params):
             b.violation(p[0], 'repair result contradicts the by-construction ground truth (%s)' % p[0],
                         {'subcase': j, 'detail': p[1], 'info': info, 'case': case})
             continue
-        b.feat({'cases': 1, 'ff_' + case['ff']: 1, 'scramble_' + case['scramble']: 1, 'permuted': int(case['permute']),
+        b.feat({'cases': 1, 'neighbour_mutated_to_this_residue_type': int(case.get('mutate_neighbour') is not None), 'ff_' + case['ff']: 1, 'scramble_' + case['scramble']: 1, 'permuted': int(case['permute']),
                 'with_missing': int(info['removed'] > 0), 'with_extras': int(info['extras'] > 0), 'in_peptide': int(bool(case['neighbours'])),
                 'atoms_readded': info['removed'], 'atoms_flagged': info['flagged']})
         if (case['scramble'] != 'none' or case['permute']) and (info['removed'] or info['extras']):
